@@ -3,6 +3,7 @@ module ruverif
 go 1.19
 
 require (
+	github.com/ethereum/go-ethereum v1.13.15
 	github.com/gin-gonic/gin v1.9.1
 	github.com/leprosus/golang-p2p v1.3.11
 	github.com/my-cloud/ruthenium v0.0.0
@@ -14,7 +15,6 @@ require (
 	github.com/btcsuite/btcd/btcutil v1.1.5 // indirect
 	github.com/btcsuite/btcd/chaincfg/chainhash v1.1.0 // indirect
 	github.com/decred/dcrd/dcrec/secp256k1/v4 v4.0.1 // indirect
-	github.com/ethereum/go-ethereum v1.13.15 // indirect
 	github.com/gabriel-vasile/mimetype v1.4.2 // indirect
 	github.com/gin-contrib/sse v0.1.0 // indirect
 	github.com/go-playground/locales v0.14.1 // indirect
